@@ -149,19 +149,26 @@ MCView == <<t, soup, IF GEN THEN 0 ELSE d>>
 
 PairsOf == Topo[t].pairs
 
-\* everything the invariants need, computed once per soup
+\* everything the invariants need, computed once per soup (and the solutions once per pair)
+PairExpect(X, sp, src, dst) ==
+  LET sols == IF src = dst THEN {} ELSE SolutionsX(X, sp, src, dst)
+      wi   == TLCEval({<<s, Ifaces(sp, s)>> : s \in {x \in sols : Encodable(sp, x)}})
+      kept == TLCEval({p \in wi : p[2] # <<>> /\ ~HasLoops(p[2])})
+  IN [paths |-> {p[2] : p \in kept},
+      panic |-> ~FIXED /\ \E p \in wi : p[2] = <<>>,
+      sc    |-> \A p \in kept : IfsConsistent(sp, p[1], p[2])]
+
 Expect ==
-  LET E  == Edges(soup)
+  LET E  == IndexByFrom(Edges(soup))
       gp == GoodPart(soup)
-      EG == Edges(gp)
+      EG == IndexByFrom(Edges(gp))
   IN [i \in 1..Len(PairsOf) |->
-        LET src == PairsOf[i][1]  dst == PairsOf[i][2] IN
-        [src |-> src, dst |-> dst,
-         paths |-> PathsE(E, soup, src, dst),
-         good |-> PathsE(EG, gp, src, dst),
-         panic |-> AnyPanicE(E, soup, src, dst),
-         sc |-> AllConsistentE(E, soup, src, dst),
-         allnc |-> AllJunkNonContributing(soup, src, dst)]]
+        LET src == PairsOf[i][1]  dst == PairsOf[i][2]
+            a   == PairExpect(E, soup, src, dst)
+            g   == PairExpect(EG, gp, src, dst)
+        IN [src |-> src, dst |-> dst,
+            paths |-> a.paths, good |-> g.paths, panic |-> a.panic \/ g.panic, sc |-> a.sc /\ g.sc,
+            allnc |-> AllJunkNonContributing(soup, src, dst)]]
 
 TotalX(x)    == \A i \in 1..Len(x) : ~x[i].panic
 SelfConsX(x) == \A i \in 1..Len(x) : x[i].sc
